@@ -150,8 +150,61 @@ fn per_variant<V: Variant>(r: &mut Report, ctx: &Ctx) {
     );
 }
 
+/// compare() is compare_with::<Tlsh>: strings of other variants' lengths are length errors.
+fn default_type_cross_variant(r: &mut Report, ctx: &Ctx) {
+    if !ctx.want("default-type-cross-variant") {
+        return;
+    }
+    r.section(
+        "default-type-cross-variant",
+        "tlsh::compare (the default hash type) on all ordered pairs drawn from the string alphabets of ALL five variants (valid strings of another variant are wrong-length strings for the default type): result equals parse-left, parse-right, compare with the default type; non-trivial = pairs with at least one string that is not a valid default-type string",
+        "190 x 190 ordered pairs",
+        true,
+        |s| {
+            let mut all: Vec<String> = Vec::new();
+            all.extend(string_alphabet::<VShort>());
+            all.extend(string_alphabet::<VNormal>());
+            all.extend(string_alphabet::<VNormalLC>());
+            all.extend(string_alphabet::<VLong>());
+            all.extend(string_alphabet::<VLongLC>());
+            let n = all.len();
+            let all = &all;
+            s.acc = par_for((n * n) as u64, 256, |idx, acc| {
+                let (l, r) = (&all[idx as usize / n], &all[idx as usize % n]);
+                acc.evals += 1;
+                acc.transitions += 3;
+                let real = match catch(|| tlsh::compare(l, r)) {
+                    Ok(x) => x,
+                    Err(p) => {
+                        acc.fail(idx, "default-type-cross-variant", format!("compare({l:?}, {r:?}) panicked: {p}"), json!({"kind": "strings", "variant": "Normal", "left": l, "right": r}));
+                        return;
+                    }
+                };
+                let expect = match (tlsh::Tlsh::from_str(l), tlsh::Tlsh::from_str(r)) {
+                    (Ok(a), Ok(b)) => Ok(a.compare(&b)),
+                    (Err(e), _) => Err((ParseErrorSide::Left, e)),
+                    (Ok(_), Err(e)) => Err((ParseErrorSide::Right, e)),
+                };
+                let got = real.map_err(|e| (e.side(), e.inner_err()));
+                if got != expect {
+                    acc.fail(idx, "default-type-cross-variant", format!("compare({l:?}, {r:?}) = {got:?} but parse-then-compare with the default type = {expect:?}"), json!({"kind": "strings", "variant": "Normal", "left": l, "right": r}));
+                    return;
+                }
+                if expect.is_err() {
+                    acc.nontrivial += 1;
+                }
+                acc.outcomes.insert(match &expect { Ok(d) => *d as u64, Err((sd, e)) => 100_000 + (*sd == ParseErrorSide::Right) as u64 * 100 + map_parse_err(e) as u64 });
+                if idx % 7919 == 0 {
+                    acc.sample(idx, || json!({"left": l, "right": r}));
+                }
+            });
+        },
+    );
+}
+
 pub fn run(r: &mut Report, ctx: &Ctx) {
     quiet_panics();
+    default_type_cross_variant(r, ctx);
     per_variant::<VShort>(r, ctx);
     per_variant::<VNormal>(r, ctx);
     per_variant::<VNormalLC>(r, ctx);
